@@ -8,7 +8,7 @@ Open Scope Z_scope.
 
 Inductive c14case :=
 | C14Step (c : ccase)
-| C14Long (samples : list (Z * Z * Z * Z)).   (* registry, stream loops, RPCs in flight, streams in flight *)
+| C14Long (samples : list (Z * Z * Z * Z * Z)).   (* client registry, stream loops, RPCs in flight, streams in flight, server stream registry (-1 = not read) *)
 
 Definition act_list (c : ccase) : list act := match c with CClient a _ => a | CClientWedged a _ _ => a end.
 Definition obs_list (c : ccase) : list obs := match c with CClient _ o => o | CClientWedged _ o _ => o end.
@@ -41,11 +41,14 @@ Fixpoint c14_walk (acts : list act) (observed : list obs) (opened gone : list na
   | _, _ => []
   end.
 
-Definition long_bad (smp : Z * Z * Z * Z) : list nat :=
+Definition long_bad (smp : Z * Z * Z * Z * Z) : list nat :=
   match smp with
-  | (reg, loops, inflight, streams) =>
+  | (reg, loops, inflight, streams, srv) =>
       (if (0 <=? reg) && (reg <=? inflight) && (0 <=? loops) && (loops <=? streams) then [] else [4%nat]) ++
-      (if negb (inflight =? 0) || ((reg =? 0) && (loops =? 0)) then [] else [5%nat])
+      (if negb (inflight =? 0) || ((reg =? 0) && (loops =? 0)) then [] else [5%nat]) ++
+      (* what the SERVER holds for the client's RPCs: nothing once the client has none in flight (the client must have
+         told it: trailer, reset) *)
+      (if negb (inflight =? 0) || (srv <=? 0) then [] else [6%nat])
   end.
 
 Definition spec_c14 (c : c14case) : list nat :=
